@@ -1,4 +1,5 @@
 import decimal
+import sys
 import io
 import uuid
 from collections.abc import Mapping
@@ -145,8 +146,8 @@ def from_decimal(data: decimal.Decimal):
             # integer
             return int(data)
         number = float(data)
-        if not number and data:
-            # a non-zero value below the float range would become 0.0: keep it as text,
+        if data and abs(number) < sys.float_info.min:
+            # below the normal float range a non-zero value loses digits (and ends as 0.0): keep it as text,
             # like the values beyond the safe integer range
             return str(data)
         return number
